@@ -43,7 +43,7 @@ struct MB {
   int reenable = 0;       // event callback re-enables the timed-out direction
   bool deferred = false;
   bool ever_set[2] = {false, false};
-  bool limited = false, ever_limited = false; int rl_k = 0;
+  bool limited = false, ever_limited = false; int rl_k = 0; size_t written = 0;
 };
 struct World {
   Src *s; struct event_base *base = nullptr; int type = 0; MB b[2]; int nb = 0;
@@ -272,7 +272,8 @@ extern "C" int LLVMFuzzerTestOneInput(const uint8_t *data, size_t size) {
         restart(m, 0, false);   // code-derived corner: (re-)evaluating the read watermark re-enables an unsuspended direction
         break; }
       case 5: { size_t n = WRS[s.below(m.type == T_PAIR ? 4 : 6)];
-        if (outlen(m) + n > (m.type == T_PAIR ? 2500u : 80000u)) break;   // a 1-byte read watermark moves pair data one byte per callback
+        if (outlen(m) + n > (m.type == T_PAIR ? 2500u : 80000u)) break;
+        if (m.type == T_FILTER && (m.written += n) > 200000) break;   // a filter passes its output straight on: bound the total   // a 1-byte read watermark moves pair data one byte per callback
         int r = bufferevent_write(m.bev, BLOB, n); TR("write %s%d %zu -> %d (out=%zu)", TN[m.type], m.idx, n, r, outlen(m));
         CHECK(r == 0, "C20/write-failed", "r=%d", r); sync(m); break; }
       case 6: { size_t n = inlen(m); if (s.flag()) n = (n + 1) / 2;
